@@ -190,3 +190,40 @@ theorem trimB_valid (U : UFacts) {s : Bytes} (h : validUtf8 s = true) : validUtf
   trimEndB_valid U (trimStartB_valid U h)
 
 end KotoVerif.Str
+
+namespace KotoVerif.Str
+open KotoVerif.Utf8
+
+/-- `n` copies of the pattern -/
+def repPat (n : Nat) (pat : Bytes) : Bytes := (List.replicate n pat).flatten
+
+/-- `trim_start_matches(pattern)`: the input is some copies of the pattern followed by the result, and the
+result does not start with the pattern -/
+theorem trimStartMatchesB_spec {pat : Bytes} (hp : pat ≠ []) : ∀ (fuel : Nat) (s : Bytes), s.length ≤ fuel →
+    ∃ k, s = repPat k pat ++ trimStartMatchesB pat fuel s ∧
+      pat.isPrefixOf (trimStartMatchesB pat fuel s) = false
+  | 0, s, h => by
+    have : s = [] := List.length_eq_zero_iff.mp (by omega)
+    subst this
+    refine ⟨0, by simp [repPat, trimStartMatchesB], ?_⟩
+    simp only [trimStartMatchesB]
+    cases pat with
+    | nil => exact absurd rfl hp
+    | cons c r => rfl
+  | fuel + 1, s, h => by
+    have hne : pat.isEmpty = false := by cases pat <;> simp_all
+    simp only [trimStartMatchesB, hne, Bool.false_eq_true, if_false]
+    split
+    · rename_i hpre
+      have hs := prefix_split hpre
+      have hpl : 0 < pat.length := List.length_pos_iff.mpr hp
+      have hl : (s.drop pat.length).length ≤ fuel := by
+        simp only [List.length_drop]; omega
+      obtain ⟨k, hk, hnp⟩ := trimStartMatchesB_spec hp fuel (s.drop pat.length) hl
+      refine ⟨k + 1, ?_, hnp⟩
+      conv => lhs; rw [hs, hk]
+      simp [repPat, List.replicate_succ]
+    · rename_i hnp
+      exact ⟨0, by simp [repPat], by cases hb : pat.isPrefixOf s <;> simp_all⟩
+
+end KotoVerif.Str
